@@ -43,6 +43,7 @@ class ServerSide:
 
 
 CUR = {'proc': 'parent', 'crossed': False}
+SERVING = [None]
 
 
 class ClientConn:
@@ -63,6 +64,7 @@ class ClientConn:
 
     def recv(self):
         if not self.to_client:
+            SERVING[0] = id(self)          # the server thread that serves this connection (one thread per connection)
             try:
                 if self.mode == 'request':
                     self.server.handle_request(self.ss)
@@ -416,5 +418,189 @@ def h_fork_child_twin(code: int) -> bool:
     """
     try:
         return _fork_child(code, True)
+    except Prune:
+        return True
+
+
+# ---------------------------------------------------------------------------
+# the other registered types: Namespace, Value, Array, Event, Queue, Lock, Semaphore - a proxied operation returns (or raises)
+# what the same operation on a local object of the registered class does
+
+import array as _array
+import queue as _queue
+
+
+def _mk(m, kind):
+    """(proxy, local twin, table of operations: name -> (call on proxy, call on twin))"""
+    if kind == 0:
+        p, t = m.Namespace(), bm.Namespace()
+        ops = [lambda o, x: setattr(o, 'a', x), lambda o, x: o.a, lambda o, x: delattr(o, 'a'), lambda o, x: setattr(o, 'b', x + 1), lambda o, x: o.b]
+        state = lambda o: (getattr_or(o, 'a'), getattr_or(o, 'b'))
+    elif kind == 1:
+        p, t = m.Value('i', 3), bm.Value('i', 3)
+        ops = [lambda o, x: o.set(x), lambda o, x: o.get(), lambda o, x: setattr(o, 'value', x + 5), lambda o, x: o.value]
+        state = lambda o: o.get()
+    elif kind == 2:
+        p, t = m.Array('i', [1, 2, 3]), _array.array('i', [1, 2, 3])
+        ops = [lambda o, x: o[x], lambda o, x: o.__setitem__(x, 9), lambda o, x: len(o), lambda o, x: list(o[0:x]), lambda o, x: o.__setitem__(x + 2, 4)]
+        state = lambda o: [o[0], o[1], o[2]]
+    elif kind == 3:
+        p, t = m.Event(), threading.Event()
+        ops = [lambda o, x: o.set(), lambda o, x: o.clear(), lambda o, x: o.is_set(), lambda o, x: o.wait(0)]
+        state = lambda o: o.is_set()
+    elif kind == 4:
+        p, t = m.Queue(2), _queue.Queue(2)
+        ops = [lambda o, x: o.put(x, False), lambda o, x: o.get(False), lambda o, x: o.qsize(), lambda o, x: o.empty(), lambda o, x: o.full()]
+        state = lambda o: o.qsize()
+    elif kind == 5:
+        p, t = m.Lock(), threading.Lock()
+        ops = [lambda o, x: o.acquire(False), lambda o, x: o.release(), lambda o, x: o.acquire(True, 0)]
+        state = lambda o: None
+    else:
+        p, t = m.BoundedSemaphore(2), threading.BoundedSemaphore(2)
+        ops = [lambda o, x: o.acquire(False), lambda o, x: o.release()]
+        state = lambda o: None
+    return p, t, ops, state
+
+
+def getattr_or(o, name):
+    try:
+        return ('v', getattr(o, name))
+    except AttributeError:
+        return ('missing',)
+
+
+KT = tier(2, 3)
+XS = (0, 1, 3)          # 3 is out of range for the array, a second item for the queue of capacity 2 ...
+
+
+def _types(code, want):
+    nd = NDCode(code)
+    kind = PART % 7 if NPART > 1 else nd.draw(0, 6)
+    with untraced():
+        m, srv = setup()
+        p, t, ops, state = _mk(m, kind)
+    raised = False
+    for step in range(KT):
+        op = ops[nd.draw(0, len(ops) - 1)]
+        x = XS[nd.draw(0, 2)]
+        try:
+            exp = ('ret', op(t, x))
+        except Exception as e:
+            exp = ('exc', type(e))
+            raised = True
+        try:
+            got = ('ret', op(p, x))
+        except Exception as e:
+            got = ('exc', type(e))
+        if got != exp:
+            return fail('C20:call:result-differs-from-local-object:type%d' % kind)
+        if state(p) != state(t):
+            return fail('C20:call:state-differs-from-local-object:type%d' % kind)
+    if want:
+        return False          # reachability: a whole history ran
+    ident = p._id
+    p._close()
+    if ident in srv.id_to_obj:
+        return fail('C20:lifetime:referent-kept-after-last-proxy-released')
+    return True
+
+
+def h_types(code: int) -> bool:
+    """
+    pre: 0 <= code < CODEMAX
+    post: _
+    """
+    try:
+        return _types(code, False)
+    except Prune:
+        return True
+
+
+def h_types_twin(code: int) -> bool:
+    """
+    pre: 0 <= code < CODEMAX
+    post: _
+    """
+    try:
+        return _types(code, True)
+    except Prune:
+        return True
+
+
+# ---------------------------------------------------------------------------
+# a thread-affine referent (what threading.RLock / Condition are): the server serves every connection in a thread of its own, so
+# a client thread must keep talking over its one connection for as long as it holds proxies of that manager
+
+class Affine:
+    """acquire/release must come from the same server thread; the local twin is used from one thread only"""
+
+    def __init__(self):
+        self.owner = None
+
+    def acquire(self):
+        me = SERVING[0]
+        if self.owner is not None and self.owner != me:
+            return False
+        self.owner = me
+        return True
+
+    def release(self):
+        if self.owner != SERVING[0]:
+            raise RuntimeError('cannot release un-acquired lock')
+        self.owner = None
+
+
+def _affine(code, want):
+    nd = NDCode(code)
+    keep_other = nd.flag()             # another long-lived proxy of the same manager exists
+    when = nd.draw(0, 3)               # an unrelated temporary proxy is released: never / before acquire / while held / after release
+    with untraced():
+        bm.SyncManager.register('vp_affine', callable=Affine, exposed=('acquire', 'release'))
+        m, srv = setup()
+    SERVING[0] = None
+    lk = m.vp_affine()
+    other = m.list([1]) if keep_other else None
+    tmp = m.dict() if when else None
+    if when == 1:
+        tmp._close()
+    if lk.acquire() is not True:
+        return fail('C20:call:result-differs-from-local-object:thread-affine-referent')
+    if when == 2:
+        tmp._close()
+        if want:
+            return False
+    try:
+        lk.release()
+    except Exception:
+        return fail('C20:call:proxy-raises-where-the-local-object-does-not:thread-affine-referent')
+    if when == 3:
+        tmp._close()
+    if other is not None and other[0] != 1:
+        return fail('C20:call:result-differs-from-local-object:list')
+    lk._close()
+    if other is not None:
+        other._close()
+    return True
+
+
+def h_affine(code: int) -> bool:
+    """
+    pre: 0 <= code < CODEMAX
+    post: _
+    """
+    try:
+        return _affine(code, False)
+    except Prune:
+        return True
+
+
+def h_affine_twin(code: int) -> bool:
+    """
+    pre: 0 <= code < CODEMAX
+    post: _
+    """
+    try:
+        return _affine(code, True)
     except Prune:
         return True
